@@ -310,7 +310,14 @@ def refusal(ctx):
         n += 1
         acc = calls(lf, "accept")
         bad = calls(lf, S + "epoll_add", "insert")
-        thens = [e for e in lf.events if e[0] == "call" and last_seg(e[3]) == "and_then"]
+        # the accepted stream handed to a closure: `.and_then(|(stream, _)| ..)`, or `.map(|(stream, _)| ..)` when the outcome of
+        # the courtesy write is deliberately not propagated (a refused client that has left must not fail the poll: D4)
+        thens = [e for e in lf.events if e[0] == "call" and (last_seg(e[3]) == "and_then" or (last_seg(e[3]) == "map" and "Result" in e[3] and len(e[4][2]) == 2 and look(e[4][2][1])[0] == "closure" and any(is_call(x, "accept") for x in subterms(e[4][2][0]) if isinstance(x, tuple))))]
+        # a closure that calls nothing (`.map(|_| ())`) is plumbing, not a user of the stream
+        def _calls_something(ev):
+            c_ = look(ev[4][2][1])
+            return not (c_[0] == "closure" and c_[1] in facts.fns and not list(facts.fns[c_[1]].calls()))
+        thens = [e for e in thens if _calls_something(e)]
         ok = len(acc) == 1 and not bad and len(thens) <= 1
         wrote = False
         if ok and not thens:
